@@ -201,9 +201,17 @@ Theorem C02_copy_struct_fuel_enough : forall f k strict w dst l src,
 Proof. exact copy_struct_fuel_enough. Qed.
 Print Assumptions C02_copy_struct_fuel_enough.
 
+(* Canonicalize: for a source struct read under depth limit D, fuel 2D + 1 excludes the
+   out-of-fuel outcome (two units per pointer level: fill -> ptr -> fill/list) *)
+Theorem C02_canon_m_nofuel : forall c fx fuel src rl s D,
+  fx_depth (cx_rd fx) = true -> 0 <= p_depth s <= D - 1 -> 2 * D + 1 <= Z.of_nat fuel ->
+  fst (canonicalize c fx fuel src rl s) <> KFuel.
+Proof. exact canonicalize_nofuel. Qed.
+Print Assumptions C02_canon_m_nofuel.
+
 (* copy and canonicalisation never increase the source's traversal budget and keep it >= 0
    (part of [rpost] / [wgood] in C01_write_ptr_safe, C01_copy_struct_safe, C01_canon_all, and
    the second conjunct of C01_canon_m_safe): what they consume is at most what is left of T.
-   NOT proved (full statements in Value/CanonSafe.v): canon_fuel_partial (fuel 2D + 1 excludes
-   KFuel), canon_alloc_partial / copy_alloc_partial (bytes appended to the destination
-   <= 3 * consumed budget + 24 * pointer slots + top-level size). *)
+   NOT proved (full statements in Value/CanonSafe.v): canon_alloc_partial / copy_alloc_partial
+   (bytes appended to the destination <= 3 * consumed budget + 24 * pointer slots + top-level
+   size). *)
